@@ -89,7 +89,8 @@ MetaDiff(p, q) ==
 \* what the accessors report is consistent with itself
 FnOK(f) == /\ Len(f.params) = f.nparams
            /\ f.nkwonly <= f.nparams - (IF f.varargs THEN 1 ELSE 0) - (IF f.kwargs THEN 1 ELSE 0)
-           /\ f.postab # <<>> => f.postab[1][1] = 0
+           /\ Len(f.postab) % 3 = 0
+           /\ f.postab # <<>> => f.postab[1] = 0
 
 (***************************************************************************)
 (* conformance of the file with Serial.tla                                 *)
